@@ -60,7 +60,15 @@ def run(ctx):
         extra.append({'kind': 'keys', 'mode': 'pair', 's1': s1, 's2': s2, 'ops': [], 'lru': 0,
                       'concurrent': conc, 'dur': 1.0 if conc else 0, 'conc': rng.choice([1, 2]),
                       'retnone': rng.random() < 0.2})
-    for fam, part in (('tlc_enumerated', scs), ('random_longer', extra)):
+    # two different functions decorated in the same process and called with equal arguments: each has its own cache
+    # (with the default dict cache, with cache=None, and through one configured decorator object)
+    two = []
+    for i in range(90):
+        sig = {'args': [rng.choice('uv') for _ in range(rng.randint(0, 2))],
+               'kw': [[n, rng.choice('uv')] for n in rng.sample(['a', 'b'], rng.randint(0, 2))]}
+        two.append({'kind': 'keys', 'mode': 'twofuncs', 's1': sig, 's2': {'args': [], 'kw': []}, 'ops': [], 'lru': 0,
+                    'form': ('options', 'bare', 'direct')[i % 3], 'variant': 'none' if i % 2 else 'empty'})
+    for fam, part in (('tlc_enumerated', scs), ('random_longer', extra), ('two_functions', two)):
         for off in range(0, len(part), 8000):
             ctx.run_and_validate(DRIVER, COMP, 'KeysTrace', part[off:off + 8000], fam,
                                  nontrivial=lambda sc, r: True, known_match=known_match)
